@@ -65,7 +65,7 @@ add("additional-items-without-tuple","C01","slice_validator.go","\t\tif s.Additi
 # round 5
 add("clone-through-gob","C09","spec.go","\tb, err := json.Marshal(src)\n\tif err != nil {\n\t\treturn spec.Schema{}, err\n\t}\n\n\tvar dst spec.Schema\n\tif err := json.Unmarshal(b, &dst); err != nil {","\tvar b bytes.Buffer\n\tif err := gob.NewEncoder(&b).Encode(src); err != nil {\n\t\treturn spec.Schema{}, err\n\t}\n\n\tvar dst spec.Schema\n\tif err := gob.NewDecoder(&b).Decode(&dst); err != nil {","CLONE-FAITHFUL:deepCloneSchema:gob", quick=False, old2='import (\n\t"encoding/json"\n', new2='import (\n\t"bytes"\n\t"encoding/gob"\n\t"encoding/json"\n')
 add("walkers-share-spec-options","C09","spec.go","\tdf := &defaultValidator{SpecValidator: s, schemaOptions: &valueOptions}","\tdf := &defaultValidator{SpecValidator: s, schemaOptions: s.schemaOptions}","VALUE-OPTIONS:(*SpecValidator).Validate:defaultValidator.options")
-add("probe-without-root","C09","spec.go","\treturn spec.ExpandSchema(&probe, s.spec.Spec(), nil) == nil","\treturn spec.ExpandSchema(&probe, nil, nil) == nil","EXPAND-ROOT:(*SpecValidator).canValidateAgainst", quick=False)
+add("probe-without-root","C09","spec.go","\treturn expandSchemaAgainst(&probe, s.spec.Spec()) == nil","\treturn expandSchemaAgainst(&probe, nil) == nil","EXPAND-ROOT:(*SpecValidator).canValidateAgainst", quick=False)
 add("defaults-replaced-wholesale","C03","options.go","\tdefaultOpts.ContinueOnErrors = c\n","\tdefaultOpts = Opts{ContinueOnErrors: c}\n","DEFAULTS-FIELDWISE:global:defaultOpts", quick=False)
 add("defaults-replaced-wholesale","C10","options.go","\tdefaultOpts.ContinueOnErrors = c\n","\tdefaultOpts = Opts{ContinueOnErrors: c}\n","DEFAULTS-FIELDWISE:global:defaultOpts", quick=False)
 add("parameters-of-raw-document","C03","spec.go","\tfor method, pi := range s.expandedAnalyzer().Operations() {\n\t\tmethodPaths","\tfor method, pi := range s.analyzer.Operations() {\n\t\tmethodPaths","RAW-ANALYZER:(*SpecValidator).validateParameters", quick=False)
@@ -94,8 +94,10 @@ add("unique-items-by-deep-equal-only","C14","values.go","\t\t\tif valuesEqual(v,
 add("self-parent-not-looked-up","C07","spec.go","\tif viaRef || (schn != nm && schn != \"\") {","\tif (viaRef && schn != nm) || (schn != nm && schn != \"\") {","REF-WALK:(*SpecValidator).validateCircularAncestry:recursion")
 add("alias-loop-unbounded","C07","spec.go","\t\tif _, again := followed[ref]; again {\n\t\t\treturn append(ancs, ref), res\n\t\t}\n","","REF-WALK:(*SpecValidator).validateCircularAncestry:loop", quick=False)
 add("options-appended-in-place","C05","schema.go","\topts := make([]Option, 0, len(options)+2)\n\topts = append(opts, options...)\n\topts = append(opts, WithRecycleValidators(true), withRecycleResults(true))\n","\topts := append(options, WithRecycleValidators(true), withRecycleResults(true))\n","VARIADIC-APPEND:AgainstSchema:options", quick=False)
-add("expansion-assumed-after-whole-document","C07","spec.go","\tprobe, err := deepCloneSchema(*schema)\n\tif err != nil {\n\t\treturn false\n\t}\n\n\treturn spec.ExpandSchema(&probe, s.spec.Spec(), nil) == nil","\tif s.expanded != nil {\n\t\treturn true\n\t}\n\tprobe, err := deepCloneSchema(*schema)\n\tif err != nil {\n\t\treturn false\n\t}\n\n\treturn spec.ExpandSchema(&probe, s.spec.Spec(), nil) == nil","EXPAND-FIRST:", quick=False)
+add("expansion-assumed-after-whole-document","C07","spec.go","\tprobe, err := deepCloneSchema(*schema)\n\tif err != nil {\n\t\treturn false\n\t}\n\n\treturn expandSchemaAgainst(&probe, s.spec.Spec()) == nil","\tif s.expanded != nil {\n\t\treturn true\n\t}\n\tprobe, err := deepCloneSchema(*schema)\n\tif err != nil {\n\t\treturn false\n\t}\n\n\treturn expandSchemaAgainst(&probe, s.spec.Spec()) == nil","EXPAND-FIRST:", quick=False)
 add("referenced-default-not-resolved","C18","object_validator.go","\t\tif pSchema.Ref.String() != \"\" {\n","\t\tif false && pSchema.Ref.String() != \"\" {\n","REF-BLIND:(*objectValidator).validatePropertiesSchema:Default", quick=False)
+add("descent-without-visited-set","C14","values.go","\t\tpair := [2]uintptr{av.Pointer(), bv.Pointer()}\n\t\tif _, again := visiting[pair]; again {\n\t\t\treturn true\n\t\t}\n\t\tvisiting[pair] = struct{}{}\n\t\tfor i := 0; i < av.Len(); i++ {","\t\tfor i := 0; i < av.Len(); i++ {","DATA-WALK:valuesEqualVisiting:visited", quick=False)
+add("expansion-outside-the-panic-boundary","C07","spec.go","\treturn expandSchemaAgainst(&probe, s.spec.Spec()) == nil","\treturn spec.ExpandSchema(&probe, s.spec.Spec(), nil) == nil","PANIC-BOUNDARY:(*SpecValidator).canValidateAgainst", quick=False)
 json.dump(C, open('/verif/tables/controls.json','w'), indent=1)
 import os
 for c in C:
